@@ -333,7 +333,7 @@ func explain(m *MRepo, o *obs, extra *MRepo, k Knobs) []string {
 				if !served {
 					diffs = append(diffs, fmt.Sprintf("manifest %s must be served, answers %s", d, val))
 				}
-			case !ok && !m.isChildOfPresent(d):
+			case !ok && !m.isChildOfPresent(d) && !m.ghosts[d]:
 				if served {
 					diffs = append(diffs, fmt.Sprintf("manifest %s must be absent, answers %s", d, val))
 				}
